@@ -18,46 +18,52 @@ VARIABLES osess,     \* [Sess -> "none" | "open" | "closed"]: closed once a clos
           ocrecv,    \* [Sess -> number of backend messages delivered to the client by polls]
           obclosed,  \* [Sess -> the backend closed the websocket itself]
           osaw,      \* [Sess -> the backend observed the close of the websocket]
+          opolls,    \* [Sess -> number of poll calls in flight]
           oans       \* <<kind, status>> of the call answered most recently
-ovars == <<osess, oclosing, oann, obrecv, obsent, ocrecv, obclosed, osaw, oans>>
+ovars == <<osess, oclosing, oann, obrecv, obsent, ocrecv, obclosed, osaw, opolls, oans>>
 
 OInitWith(st) == /\ osess = [s \in Sess |-> st] /\ oclosing = [s \in Sess |-> FALSE] /\ oann = [s \in Sess |-> 0]
                  /\ obrecv = [s \in Sess |-> 0] /\ obsent = [s \in Sess |-> 0] /\ ocrecv = [s \in Sess |-> 0]
-                 /\ obclosed = [s \in Sess |-> FALSE] /\ osaw = [s \in Sess |-> FALSE] /\ oans = <<"none", 0>>
+                 /\ obclosed = [s \in Sess |-> FALSE] /\ osaw = [s \in Sess |-> FALSE] /\ opolls = [s \in Sess |-> 0] /\ oans = <<"none", 0>>
 
 OkStatus(st) == st \in {200, 400, 408, 500}
 
 OOpened(s) == osess[s] = "none" /\ osess' = [osess EXCEPT ![s] = "open"]
-              /\ UNCHANGED <<oclosing, oann, obrecv, obsent, ocrecv, obclosed, osaw, oans>>
+              /\ UNCHANGED <<oclosing, oann, obrecv, obsent, ocrecv, obclosed, osaw, opolls, oans>>
 \* client messages from..to are handed to a data call
 ODataBegin(s, from, to) == /\ osess[s] # "none" /\ from = oann[s] + 1 /\ to >= from
                            /\ oann' = [oann EXCEPT ![s] = to]
-                           /\ UNCHANGED <<osess, oclosing, obrecv, obsent, ocrecv, obclosed, osaw, oans>>
+                           /\ UNCHANGED <<osess, oclosing, obrecv, obsent, ocrecv, obclosed, osaw, opolls, oans>>
+OPollBegin(s) == opolls' = [opolls EXCEPT ![s] = @ + 1]
+                 /\ UNCHANGED <<osess, oclosing, oann, obrecv, obsent, ocrecv, obclosed, osaw, oans>>
 OCloseBegin(s) == oclosing' = [oclosing EXCEPT ![s] = TRUE]
-                  /\ UNCHANGED <<osess, oann, obrecv, obsent, ocrecv, obclosed, osaw, oans>>
+                  /\ UNCHANGED <<osess, oann, obrecv, obsent, ocrecv, obclosed, osaw, opolls, oans>>
 \* C11: the backend receives the client's messages once each, in order - never one that was not handed over
 OBackendRecv(s, n) == /\ n = obrecv[s] + 1 /\ n <= oann[s]
                       /\ obrecv' = [obrecv EXCEPT ![s] = n]
-                      /\ UNCHANGED <<osess, oclosing, oann, obsent, ocrecv, obclosed, osaw, oans>>
+                      /\ UNCHANGED <<osess, oclosing, oann, obsent, ocrecv, obclosed, osaw, opolls, oans>>
 OBackendSend(s, n) == /\ n = obsent[s] + 1
                       /\ obsent' = [obsent EXCEPT ![s] = n]
-                      /\ UNCHANGED <<osess, oclosing, oann, obrecv, ocrecv, obclosed, osaw, oans>>
+                      /\ UNCHANGED <<osess, oclosing, oann, obrecv, ocrecv, obclosed, osaw, opolls, oans>>
 OBackendClose(s) == obclosed' = [obclosed EXCEPT ![s] = TRUE]
-                    /\ UNCHANGED <<osess, oclosing, oann, obrecv, obsent, ocrecv, osaw, oans>>
+                    /\ UNCHANGED <<osess, oclosing, oann, obrecv, obsent, ocrecv, osaw, opolls, oans>>
 OBackendSawClose(s) == osaw' = [osaw EXCEPT ![s] = TRUE]
-                       /\ UNCHANGED <<osess, oclosing, oann, obrecv, obsent, ocrecv, obclosed, oans>>
-\* C12: a call on the session is answered.  kind in {"data","poll","close"}.  A poll answered 200 delivers the
-\* next `count` messages the backend sent, starting with number `first`.  A poll that reports the end of the
-\* session (400) comes either with / after a close call, or - when the backend closed - only after everything
-\* the backend had sent was delivered.
-OAnswer(s, kind, status, first, count) ==
+                       /\ UNCHANGED <<osess, oclosing, oann, obrecv, obsent, ocrecv, obclosed, opolls, oans>>
+\* C12: a call on the session is answered.  kind in {"data","poll","close"}.  A poll answered 200 delivers `count`
+\* messages the backend sent and no other poll delivered (which ones, and that a single poller gets them in order,
+\* is checked by the observer).  A poll that reports the end of the session (400) comes either with / after a
+\* close call, or - when the backend closed - only after everything the backend had sent was delivered, unless
+\* another poll is in flight at that moment (it may be carrying the rest).
+OAnswer(s, kind, status, count) ==
   /\ OkStatus(status)
   /\ IF kind = "poll" /\ status = 200
-       THEN /\ count >= 1 /\ first = ocrecv[s] + 1 /\ first + count - 1 <= obsent[s]
-            /\ ocrecv' = [ocrecv EXCEPT ![s] = first + count - 1]
+       THEN /\ count >= 1 /\ ocrecv[s] + count <= obsent[s]
+            /\ ocrecv' = [ocrecv EXCEPT ![s] = @ + count]
        ELSE UNCHANGED ocrecv
+  /\ (kind = "poll" => opolls[s] >= 1)
+  /\ opolls' = IF kind = "poll" THEN [opolls EXCEPT ![s] = @ - 1] ELSE opolls
   /\ (kind = "poll" /\ status = 400 => \/ oclosing[s] \/ osess[s] = "closed"
-                                        \/ (obclosed[s] /\ ocrecv[s] = obsent[s]))
+                                        \/ (obclosed[s] /\ (ocrecv[s] = obsent[s] \/ opolls[s] > 1)))
   /\ (kind = "data" /\ status = 200 => osess[s] # "none")
   /\ osess' = IF (kind = "close" /\ status = 200) \/ (kind = "poll" /\ status = 400)
                 THEN [osess EXCEPT ![s] = "closed"] ELSE osess
@@ -65,9 +71,9 @@ OAnswer(s, kind, status, first, count) ==
   /\ UNCHANGED <<oclosing, oann, obrecv, obsent, obclosed, osaw>>
 
 ONext == \E s \in Sess :
-           \/ OOpened(s) \/ OCloseBegin(s) \/ OBackendClose(s) \/ OBackendSawClose(s)
+           \/ OOpened(s) \/ OCloseBegin(s) \/ OPollBegin(s) \/ OBackendClose(s) \/ OBackendSawClose(s)
            \/ \E n \in 1..8 : OBackendRecv(s, n) \/ OBackendSend(s, n) \/ ODataBegin(s, n, n)
-           \/ \E k \in {"data", "poll", "close"}, st \in {200, 400, 408, 500}, f \in 0..8, c \in 0..8 : OAnswer(s, k, st, f, c)
+           \/ \E k \in {"data", "poll", "close"}, st \in {200, 400, 408, 500}, c \in 0..8 : OAnswer(s, k, st, c)
 OSpec == OInitWith("open") /\ [][ONext]_ovars
 
 \* observable safety: both directions are prefixes
